@@ -187,7 +187,7 @@ func subRoundTrip(r *ev.Run, name string, ds []rd, space string) {
 		}
 	}
 	col.flush(r, name)
-	for _, i := range []int{0, len(ds) / 2, len(ds) - 1} {
+	for _, i := range []int{len(ds) - 1} {
 		d, f := buildReal(ds[i])
 		if f == nil {
 			rp, _, _ := formatPath("read", d, 1)
@@ -335,7 +335,7 @@ func subReject(r *ev.Run, thorough bool) {
 		}
 	}
 	sub.Extra = map[string]any{"mutations_per_class": total, "valid_names": len(jobs)}
-	for _, i := range []int{3, len(jobs) - 2} {
+	for _, i := range []int{len(jobs) - 2} {
 		j := jobs[i]
 		base, muts := pathMutations(j.d, j.comp, j.write)
 		var ex []string
@@ -398,10 +398,10 @@ func subPathTokens(r *ev.Run, name string, alpha []string, maxTok int) {
 		acc += accepted[i]
 	}
 	sub.Extra = map[string]any{"accepted": acc, "strings": sub.Evaluations / 2}
-	for _, s := range []string{"a/blobs/" + hex64 + "/12/x", "/uploads/" + fixedUUIDString + "//" + hex64 + "/12/"} {
+	for _, s := range []string{"a//blobs/" + hex64 + "/12/x", "/uploads/" + fixedUUIDString + "//" + hex64 + "/12/"} {
 		for _, parser := range []string{"read", "write"} {
 			_, oc := checkPath(parser, s, pathExpect{mode: "any"})
-			if strings.HasPrefix(oc, "accept") {
+			if strings.HasPrefix(oc, "accept") && (len(alpha) == len(tokenAlphaA) || parser == "write") {
 				r.Sample(map[string]any{"sub": name, "parser": parser, "input": s, "outcome": oc})
 			}
 		}
@@ -467,7 +467,7 @@ func subInstanceTokens(r *ev.Run, maxTok int) {
 		sub.Evaluations += evals[i]
 		sub.Nontrivial += nontriv[i]
 	}
-	for _, s := range []string{"a//x", "a/actionResults/x", "a/ActionResults/x"} {
+	for _, s := range []string{"a/actionResults/x"} {
 		_, oc := checkInstance(s)
 		r.Sample(map[string]any{"sub": "instance-tokens", "input": s, "outcome": oc})
 	}
@@ -640,7 +640,7 @@ func subCompact(r *ev.Run, thorough bool) {
 		sub.Evaluations += evals[i]
 		sub.Nontrivial += nontriv[i]
 	}
-	for _, b := range [][]byte{structured[len(structured)/2], structured[len(structured)-1]} {
+	for _, b := range [][]byte{structured[len(structured)/2]} {
 		_, oc := checkCompact("a/b", b)
 		r.Sample(map[string]any{"sub": "compact", "input_hex": fmt.Sprintf("%x", b), "outcome": oc})
 	}
